@@ -11,7 +11,7 @@ pub fn scalars() -> Vec<RVal> {
     let mut v = vec![
         RVal::Int(0x21, 0), RVal::Int(0x21, -1), RVal::Int(0x21, i32::MIN), RVal::Int(0x23, 3), RVal::Int(0x23, i32::MAX),
         RVal::Bool(true), RVal::Bool(false),
-        RVal::Range(-5, 7), RVal::Range(i32::MIN, i32::MAX),
+        RVal::Range(-5, 7), RVal::Range(i32::MIN, i32::MAX), RVal::Range(10, 5), RVal::Range(0, -1),
         RVal::Date([0x07, 0xe8, 12, 31, 23, 59, 60, 9, b'+', 13, 45]), RVal::Date([0, 0, 0, 0, 0, 0, 0, 0, b'-', 0, 0]),
         RVal::Res(600, 1200, 3), RVal::Res(-1, 0, -4),
         RVal::NoValue,
@@ -26,6 +26,9 @@ pub fn scalars() -> Vec<RVal> {
         v.push(t(tag, " padded \t")); v.push(t(tag, "nul\u{0}")); v.push(t(tag, "\u{0}")); v.push(t(tag, "line\n")); v.push(t(tag, " "));
     }
     v.push(RVal::Lang(0x35, "en ".into(), " text \u{0}".into()));
+    // long language parts (no registry limit is enforced on the wire) and long texts
+    v.push(RVal::Lang(0x35, "x".repeat(63), "t".into())); v.push(RVal::Lang(0x36, "y".repeat(64), "n".into()));
+    v.push(RVal::Lang(0x35, "z".repeat(300), "w".repeat(300)));
     v.push(t(0x41, &"x".repeat(255))); v.push(t(0x41, &"y".repeat(256)));
     v
 }
@@ -92,6 +95,9 @@ pub fn messages(thorough: bool) -> Vec<RMsg> {
                                                ("job-id".to_string(), RVal::Int(0x21, 9)), ("job-uri".to_string(), t(0x45, "x"))]),
                        (4, vec![("attributes-natural-language".to_string(), t(0x48, "fr"))])]));
     out.push(base(vec![(4, vec![("no-op-group".into(), kw("x"))])]));
+    // names that differ only in case are different names
+    out.push(base(vec![(1, op.clone()), (2, vec![("media".into(), kw("a")), ("Media".into(), kw("b")), ("MEDIA".into(), kw("c"))]),
+                       (1, vec![]), (4, vec![("Job-Id".into(), RVal::Int(0x21, 1)), ("job-id".into(), RVal::Int(0x21, 2))])]));
     // attribute and member names that are not ASCII (byte length != character count), names of 1 / 255 / 256 / 257 / 1024 bytes
     out.push(base(vec![(1, op.clone()), (4, vec![("na\u{ef}ve-\u{540d}\u{524d}".into(), kw("v")), ("\u{1f5a8}".into(), RVal::Int(0x21, 1))])]));
     for n in [1usize, 255, 256, 257, 1024] {
